@@ -204,7 +204,7 @@ class RunTest:
         if failing:
             return self.exception_caught
 
-    def _run_user(self, fn, *args, **kwargs):
+    def _run_user(self, fn, /, *args, **kwargs):
         """Run a user supplied function.
 
         Exceptions are processed by `_got_user_exception`.
